@@ -264,6 +264,33 @@ func childRun(raw json.RawMessage) (interface{}, error) {
 			}
 		}()
 	}
+	// an observer that takes the glob cache's mutex like a lookup in its slow path and looks at the cache WHILE
+	// lookups are in flight: the bound of `globcache_inv` holds between any two micro-steps, not only at rest
+	var inflightSamples, inflightBad, inflightMax int64
+	var firstInflight atomic.Value
+	if in.Kind == kindGlob || in.Kind == kindMixed {
+		swg.Add(1)
+		go func() {
+			defer swg.Done()
+			for {
+				select {
+				case <-stop:
+					return
+				default:
+				}
+				entries, n, size := route.VerifC06CacheCountLocked(cache)
+				atomic.AddInt64(&inflightSamples, 1)
+				if int64(entries) > atomic.LoadInt64(&inflightMax) {
+					atomic.StoreInt64(&inflightMax, int64(entries))
+				}
+				if entries > size || n > size || entries != n {
+					atomic.AddInt64(&inflightBad, 1)
+					firstInflight.CompareAndSwap(nil, fmt.Sprintf("under the mutex: %d map entries, n = %d, size %d", entries, n, size))
+				}
+				time.Sleep(30 * time.Microsecond)
+			}
+		}()
+	}
 	start := make(chan struct{})
 	for g := 0; g < in.G; g++ {
 		accTally[g] = make([]accClassOut, len(accStressRoutes)*len(accStressClients))
@@ -480,7 +507,12 @@ func childRun(raw json.RawMessage) (interface{}, error) {
 		out["access"] = map[string]interface{}{"pools": accPools(), "rules": rules, "clients": accStressClients, "classes": classes}
 	}
 	keys, l, h, n := route.VerifC06CacheDump(cache)
-	out["cache"] = map[string]int{"size": in.Cache, "entries": len(keys), "l": len(l), "h": h, "n": n}
+	out["cache"] = map[string]int{"size": in.Cache, "entries": len(keys), "l": len(l), "h": h, "n": n,
+		"inflight_samples": int(atomic.LoadInt64(&inflightSamples)), "inflight_bad": int(atomic.LoadInt64(&inflightBad)),
+		"inflight_max": int(atomic.LoadInt64(&inflightMax))}
+	if v := firstInflight.Load(); v != nil {
+		out["first_inflight"] = v
+	}
 	return out, nil
 }
 
